@@ -213,6 +213,9 @@ where
         "There should be auxiliary polynomials if and only if we have either lookups or require cross-table lookups."
     );
 
+    #[cfg(feature = "verif_hooks")]
+    let auxiliary_polys = auxiliary_polys.map(plonky2::verif_hooks::hook_stark_aux);
+
     // Get the polynomial commitments for all auxiliary polynomials.
     let auxiliary_polys_commitment = auxiliary_polys.map(|aux_polys| {
         timed!(
@@ -387,6 +390,10 @@ where
             config,
         )
     );
+    #[cfg(feature = "verif_hooks")]
+    let quotient_polys = quotient_polys.map(|q| {
+        plonky2::verif_hooks::hook_stark_quotient(q, degree * stark.quotient_degree_factor())
+    });
     let (quotient_commitment, quotient_polys_cap) = if let Some(quotient_polys) = quotient_polys {
         let all_quotient_chunks = timed!(
             timing,
